@@ -55,8 +55,6 @@ func lemmaObligations(w *World, pkg, name string) ([]*Obligation, error) {
 	return out, nil
 }
 
-func locksetObligations(w *World, pkg string, run *checkRun) []*Obligation { return nil }
-
 // constObligation: an obligation decided by a structural scan of the SSA (back end "dataflow"); it is
 // still written out and pushed through the solver so that the evidence is uniform.
 func constObligation(name, fn string, ok bool, text string) *Obligation {
